@@ -540,6 +540,50 @@ func (g *Gen) spec(seed uint64, index int) Spec {
 		}
 	}
 
+	// case variants of ranges (operators, flags and qualifiers written in another
+	// case are a classic special path)
+	titleCase := func(x string) string {
+		b := []byte(x)
+		up := true
+		for i, c := range b {
+			if c >= 'a' && c <= 'z' {
+				if up {
+					b[i] = c - 32
+				}
+				up = false
+			} else if !(c >= 'A' && c <= 'Z') {
+				up = true
+			}
+		}
+		return string(b)
+	}
+	for e, ep := range sp.Ecos {
+		ec := g.class[ep.Name]
+		if len(ec.ranges) == 0 || !p.chance(1, 3) {
+			continue
+		}
+		eco := EcoByName(ep.Name)
+		for k := 0; k < 3; k++ {
+			r := pickS(p, ec.ranges)
+			// the same range with one of its words replaced by another word of this
+			// ecosystem's vocabulary (@stable -> @beta, -alpha -> -rc ...)
+			if na := len(alphaRun.FindAllString(r, -1)); na > 0 && len(g.words[ep.Name]) > 0 && p.chance(1, 2) {
+				r = replaceNth(alphaRun, r, p.n(na), pickS(p, g.words[ep.Name]))
+				if tryR(eco, r) {
+					hots[e].r = append(hots[e].r, r)
+				}
+			}
+			for _, v := range []string{titleCase(r), strings.ToUpper(r)} {
+				if v != r && tryR(eco, v) {
+					hots[e].r = append(hots[e].r, v)
+					if len(sp.Ecos[e].Ranges) < 14 {
+						sp.Ecos[e].Ranges = append(sp.Ecos[e].Ranges, v)
+					}
+				}
+			}
+		}
+	}
+
 	// wide runs: many distinct constructor texts, each used again and again by
 	// every task (what a small hashed or direct-mapped cache needs to collide)
 	wide := p.chance(1, 6) || (g.Soak != "" && p.chance(3, 4))
